@@ -50,25 +50,28 @@ fn fast_gnp_random_graph_directed(
     for i in 0..num_nodes {
         graph.add_node(Node::from_name(i));
     }
-    let mut w: i32 = -1;
+    // the skip can be arbitrarily large for small probabilities: `w` is kept in an `i64` and
+    // the additions saturate
+    let num_nodes_i64 = num_nodes as i64;
+    let mut w: i64 = -1;
     let lp = (1.0 - edge_probability).ln();
-    let mut v = 0;
+    let mut v: i64 = 0;
     let mut edges = vec![];
-    while v < num_nodes {
+    while v < num_nodes_i64 {
         let lr: f64 = (1.0_f64 - rng.gen::<f64>()).ln();
-        w = w + 1 + ((lr / lp) as i32);
+        w = w.saturating_add(1).saturating_add(get_skip(lr, lp));
         if v == w {
-            w += 1;
+            w = w.saturating_add(1);
         }
-        while v < num_nodes && num_nodes <= w {
-            w -= num_nodes;
+        while v < num_nodes_i64 && num_nodes_i64 <= w {
+            w -= num_nodes_i64;
             v += 1;
             if v == w {
                 w += 1;
             }
         }
-        if v < num_nodes {
-            edges.push((v, w));
+        if v < num_nodes_i64 {
+            edges.push((v as i32, w as i32));
         }
     }
     match graph.add_edge_tuples(edges) {
@@ -86,24 +89,38 @@ fn fast_gnp_random_graph_undirected(
     for i in 0..num_nodes {
         graph.add_node(Node::from_name(i));
     }
-    let mut w: i32 = -1;
+    // the skip can be arbitrarily large for small probabilities: `w` is kept in an `i64` and
+    // the additions saturate
+    let num_nodes_i64 = num_nodes as i64;
+    let mut w: i64 = -1;
     let lp = (1.0 - edge_probability).ln();
-    let mut v = 1;
+    let mut v: i64 = 1;
     let mut edges = vec![];
-    while v < num_nodes {
+    while v < num_nodes_i64 {
         let lr: f64 = (1.0_f64 - rng.gen::<f64>()).ln();
-        w = w + 1 + ((lr / lp) as i32);
-        while w >= v && v < num_nodes {
+        w = w.saturating_add(1).saturating_add(get_skip(lr, lp));
+        while w >= v && v < num_nodes_i64 {
             w -= v;
             v += 1;
         }
-        if v < num_nodes {
-            edges.push((v, w));
+        if v < num_nodes_i64 {
+            edges.push((v as i32, w as i32));
         }
     }
     match graph.add_edge_tuples(edges) {
         Err(e) => Err(e),
         Ok(_) => Ok(graph),
+    }
+}
+
+/// The number of slots to skip: `floor(lr / lp)`, saturating. For probabilities so small that
+/// `lp` rounds to zero the quotient is infinite or NaN, and everything is skipped.
+#[inline]
+fn get_skip(lr: f64, lp: f64) -> i64 {
+    let skip = lr / lp;
+    match skip >= 0.0 {
+        true => skip as i64,
+        false => i64::MAX,
     }
 }
 
